@@ -98,6 +98,15 @@ def benign_ids():
     return sorted(os.path.basename(d) for d in glob.glob(os.path.join(VERIF, "benign", "*")) if os.path.exists(os.path.join(d, "patch.diff")))
 
 
+def _expected_inconclusive():
+    p = os.path.join(VERIF, "benign", "EXPECTED_INCONCLUSIVE.json")
+    try:
+        with open(p) as fh:
+            return json.load(fh)
+    except OSError:
+        return {}
+
+
 def _run_benign(args):
     bid, pid, base = args
     from . import core
@@ -110,6 +119,8 @@ def _run_benign(args):
         return bid, pid, "FAIL", "exception %r" % e
     if code == 0:
         return bid, pid, "ok", ""
+    if code == 2 and pid in _expected_inconclusive().get(bid, {}).get("props", []):
+        return bid, pid, "ok", "inconclusive, as recorded in benign/EXPECTED_INCONCLUSIVE.json"
     bad = ["%s %s (%s) %s" % (o.rule, o.construct, o.verdict, o.reason[:120]) for o in (ctx.obs if ctx else []) if o.verdict in ("violation", "inconclusive", "error")]
     return bid, pid, "FAIL", "exit %d: %s" % (code, "; ".join(bad[:2]))
 
